@@ -289,6 +289,100 @@ theorem C18_gen_item_names :
     Generated.C18.affiliationNames = some (Aff.all.map fun a => (a.code, a.name)) ∧
     Generated.C18.roleNames = some (Role.all.map fun r => (r.code, r.name)) := by decide
 
+/-! ### the room's error reply (round D) -/
+
+/-- `Join` returns the room's stanza error, and `Leave` recognises the refusal, whatever the stanza
+namespace of the session is and whatever the room echoes in front of the error: if no child before
+it is an element called `error`, the scan decodes exactly the error element — `ns` is arbitrary
+(`jabber:client`, `jabber:server`, `jabber:component:accept`, none) -/
+theorem C18_error_reply_found (ns : String) (pre post : List RChild)
+    (hpre : ∀ c ∈ pre, c.isError = false) :
+    findError (pre ++ RChild.elem ns "error" :: post) = some pre.length := by
+  induction pre with
+  | nil => simp [findError, RChild.isError]
+  | cons c cs ih =>
+    have hc : c.isError = false := hpre c (by simp)
+    have := ih (fun d hd => hpre d (by simp [hd]))
+    simp [findError, hc, this]
+
+/-- … so which error child is decoded does not depend on the namespace of the stream -/
+theorem C18_error_reply_any_namespace (ns ns' : String) (pre post : List RChild)
+    (hpre : ∀ c ∈ pre, c.isError = false) :
+    findError (pre ++ RChild.elem ns "error" :: post) = findError (pre ++ RChild.elem ns' "error" :: post) := by
+  rw [C18_error_reply_found ns pre post hpre, C18_error_reply_found ns' pre post hpre]
+
+/-- a reply is taken for a refusal only if it carries an error element: nothing else — echoed
+payloads, white space, elements with a similar name — is mistaken for one -/
+theorem C18_error_reply_only_error (cs : List RChild) :
+    findError cs = none ↔ ∀ c ∈ cs, c.isError = false := by
+  induction cs with
+  | nil => simp [findError]
+  | cons c cs ih =>
+    cases hc : c.isError <;> simp [findError, hc, ih]
+
+/-- the index found is that of an element called `error`, and the first such -/
+theorem C18_error_reply_first {cs : List RChild} {i : Nat} (h : findError cs = some i) :
+    (∃ c, cs[i]? = some c ∧ c.isError = true) ∧ ∀ j, j < i → ∀ c, cs[j]? = some c → c.isError = false := by
+  induction cs generalizing i with
+  | nil => simp [findError] at h
+  | cons d ds ih =>
+    cases hd : d.isError
+    · simp only [findError, hd] at h
+      cases hf : findError ds with
+      | none => simp [hf] at h
+      | some k =>
+        simp [hf] at h
+        subst h
+        obtain ⟨h1, h2⟩ := ih hf
+        refine ⟨by simpa using h1, ?_⟩
+        intro j hj c hc
+        cases j with
+        | zero => simp at hc; subst hc; exact hd
+        | succ j => exact h2 j (by omega) c (by simpa using hc)
+    · simp [findError, hd] at h
+      subst h
+      exact ⟨⟨d, by simp, hd⟩, by intro j hj; omega⟩
+
+/-- Leaving returns when an error reply arrives — on a session of any stanza namespace, whatever
+the room echoes in front of the error: the waiting `Leave` ends with the room's stanza error (and,
+known finding, the code ends the membership) -/
+theorem C18_refused_leave_any_namespace {s} {c : Nat} (ns : String) (pre post : List RChild)
+    (hpre : ∀ d ∈ pre, d.isError = false) (hw : s.lpc c = .waiting) :
+    ∃ a s', replyAct true c (pre ++ RChild.elem ns "error" :: post) = some a ∧ step s a = some s' ∧
+      s'.lpc c = .idle ∧ s'.lastLeave c = some (.err .stanzaErr) ∧ s'.joined c = false := by
+  refine ⟨.leaveError c, ?_⟩
+  simp [replyAct, C18_error_reply_found ns pre post hpre, step, hw, upd]
+
+/-- … and a pending `Join` takes the room's error: it will return the stanza error -/
+theorem C18_refused_join_any_namespace {s} {c : Nat} (ns : String) (pre post : List RChild)
+    (hpre : ∀ d ∈ pre, d.isError = false) (hp : s.jpc c = .pending) :
+    ∃ a s' s'', replyAct false c (pre ++ RChild.elem ns "error" :: post) = some a ∧ step s a = some s' ∧
+      step s' (.joinCleanup c) = some s'' ∧ s''.jpc c = .idle ∧ s''.lastJoin c = some (.err .stanzaErr) := by
+  refine ⟨.joinError c, ?_⟩
+  simp [replyAct, C18_error_reply_found ns pre post hpre, step, hp, upd]
+
+/-- a reply without an error element is no refusal (nothing of the bookkeeping moves on it) -/
+theorem C18_reply_without_error_is_no_refusal (leave : Bool) (c : Nat) (cs : List RChild)
+    (h : ∀ d ∈ cs, d.isError = false) : replyAct leave c cs = none := by
+  simp [replyAct, (C18_error_reply_only_error cs).mpr h]
+
+example : replyAct true 0 [.elem nsMuc "x", .text, .elem nsAccept "error"] = some (.leaveError 0) := by decide
+
+-- non-vacuity: a component session's reply with the echoed muc payload and white space first
+example : findError [.elem nsMuc "x", .text, .elem nsAccept "error"] = some 2 := by decide
+example : findError [.elem nsMuc "x", .elem "urn:verif" "errors", .text] = none := by decide
+example : ∀ c ∈ [RChild.elem nsMuc "x", RChild.text], c.isError = false := by decide
+
+set_option maxRecDepth 20000 in
+/-- probe fact: `stanza.UnmarshalError` — the function through which `JoinPresence` and
+`LeavePresence` see the room's error reply — run on the children of every reply of the probe
+domain (at most three children out of white space, echoed payloads, a near miss of the name and
+the error element in each of the five stanza namespaces; at most one error element), decodes
+exactly the child `findError` names, and returns no stanza error where `findError` finds none -/
+theorem C18_gen_error_reply_scan :
+    Generated.C18.errorScan = some (replyDomain.map fun cs => (cs, findError (replyChildren cs))) := by
+  decide
+
 /-! ### presences for rooms that were never joined, invitations -/
 
 /-- presences from an address no channel is registered for change nothing and call nothing -/
